@@ -780,7 +780,10 @@ fn export<'tcx>(tcx: TyCtxt<'tcx>) -> String {
         cx.export_body(&mut j);
         j.obj_end();
         // promoted constants of this body (e.g. `0.0..=1.0` used by reference)
-        if matches!(kind, DefKind::Fn | DefKind::AssocFn | DefKind::Closure) {
+        if matches!(
+            kind,
+            DefKind::Fn | DefKind::AssocFn | DefKind::Closure | DefKind::Static { .. } | DefKind::Const { .. }
+        ) {
             for (pi, pbody) in tcx.promoted_mir(did).iter_enumerated() {
                 let pcx = Cx { tcx, body: pbody, env };
                 j.obj_begin();
